@@ -43,7 +43,7 @@ LEVEL = "exploration"
 RULE = (
     "case = (2-4 SQLite file shards; routing table rk->shard; identity_chooser / execute_chooser as drawn ordered shard subsets, "
     "execute_chooser optionally derived from rk criteria of the statement; choosers optionally narrowing to lazy_loaded_from's shard; "
-    "seed rows per shard with PKs from 1..4 so equal PKs live on several shards; program of 3-12 ops: add parent(+children)/add child/"
+    "seed rows per shard with PKs from 1..4 so equal PKs live on several shards; program of 4-15 ops (always one chooser-routed select, one unit-of-work write and one lazy load): add parent(+children)/add child/"
     "modify/ORM delete + flush, commit, get (plain / identity_token / bind shard_id), select (2.0, legacy Query, column rows, Core table; "
     "filters, ORDER BY, LIMIT; set_shard_id option / bind_arguments shard_id / Query.set_shard), lazy load of Parent.children and "
     "Child.parent, refresh, expire+access, ORM-enabled bulk UPDATE/DELETE). Object references are indexes modulo the current model rows. "
@@ -405,6 +405,12 @@ class _World:
         row = self.db[shard][cls].get(pk)
         if row is None:
             raise Violation(f"C53/{what}/object-without-row", f"{what}: {k} returned but shard {shard} has no such row", observed=list(k))
+        if not inspect(obj).persistent:
+            raise Violation(
+                f"C53/{what}/live-object-not-persistent",
+                f"{what}: {k} has a row on its shard and was never deleted, but the session no longer holds it as persistent (synchronization hit the wrong identity token?)",
+                observed=list(k),
+            )
         self.clear()
         got = {"tag": obj.tag, "val": obj.val}
         if cls == "P":
@@ -644,15 +650,17 @@ def _op_get(w, op):
         look, dbshards = list(w.id_sub), [x]
     else:
         look, dbshards = list(w.id_sub), list(w.ex_sub)
-    hit = next((s for s in look if (cls, pk, s) in w.held), None)
-    if hit is not None:
+    hits = [s for s in look if (cls, pk, s) in w.held]
+    if hits:
+        # which of several in-session candidates wins is not specified: any of them is accepted
         w.labels.add("get:identity-map-hit")
-        w.expect_sql(what, within=[hit])
-        if err is not None or obj is not w.held[(cls, pk, hit)][0]:
+        hit = next((s for s in hits if obj is w.held[(cls, pk, s)][0]), None)
+        if err is not None or hit is None:
             raise Violation(
                 f"C53/{what}/identity-map-lookup",
-                f"{what}({cls},{pk}): identity ({cls},{pk},{hit}) is in the session and is the first the identity chooser {look} offers, got {obj!r} / {err!r}",
+                f"{what}({cls},{pk}): identities ({cls},{pk},{hits}) are in the session and offered by the identity chooser {look}, got {obj!r} / {err!r}",
             )
+        w.expect_sql(what, within=[hit])
         w.audit_obj((cls, pk, hit), what)
         return
     w.expect_sql(what, exact=dbshards)
@@ -723,6 +731,10 @@ def _op_select(w, op):
         w.labels.add("select:multi-shard+shared-pk")
     if limit is not None and len(shards) >= 2:
         w.labels.add("select:limit-multi-shard")
+    if sum(1 for s in shards if expected[s]) >= 2:
+        w.labels.add("select:rows-from>=2-shards")
+    if limit is not None and any(len([1 for pk, r in w.db[s][cls].items() if _match(cls, pk, r, filters)]) > limit for s in shards):
+        w.labels.add("select:limit-cuts-a-shard")
     # ---- run
     bind_arguments = {}
     w.clear()
@@ -867,15 +879,16 @@ def _op_lazy_parent(w, op):
         w.nontrivial = True
         w.labels.add("lazy:non-first-shard")
     look = [sc] if w.lazy_mode == "owner" else list(w.id_sub)
-    hit = next((s for s in look if ("P", ppk, s) in w.held), None)
-    if hit is not None:
+    hits = [s for s in look if ("P", ppk, s) in w.held]
+    if hits:
         w.labels.add("lazy-parent:identity-map-hit")
-        w.expect_sql("lazy-parent", within=[hit])
-        if err is not None or par is not w.held[("P", ppk, hit)][0]:
+        hit = next((s for s in hits if par is w.held[("P", ppk, s)][0]), None)
+        if err is not None or hit is None:
             raise Violation(
                 "C53/lazy-parent/identity-map-lookup",
-                f"Child({pk})@{sc}.parent: identity (P,{ppk},{hit}) is in the session and first among {look}; got {par!r} / {err!r}",
+                f"Child({pk})@{sc}.parent: identities (P,{ppk},{hits}) are in the session and offered by the identity chooser {look}; got {par!r} / {err!r}",
             )
+        w.expect_sql("lazy-parent", within=[hit])
         return
     shards = _lazy_shards(w, sticky, sc)
     if sticky is not None:
@@ -974,7 +987,14 @@ def _op_bulk(w, op):
                 r["val"] = (r["val"] + op["k"]) if op["mode"] == "add" else op["k"]
             else:
                 del w.db[s][cls][pk]
+                rec = w.held.get((cls, pk, s))
                 w.drop((cls, pk, s))
+                if rec is not None and inspect(rec[0]).persistent:
+                    raise Violation(
+                        "C53/bulk-delete/deleted-object-still-persistent",
+                        f"bulk-delete (synchronize_session='fetch') removed row ({cls},{pk}) on {s} but the session still holds that identity as persistent",
+                        observed=[cls, pk, s],
+                    )
     if touched_other:
         w.labels.add("bulk:matching-row-on-unchosen-shard")
     if len(shards) >= 2:
@@ -1038,6 +1058,8 @@ def check_program(case, ctx):
 
 
 # ------------------------------------------------------------------ strategy
+# (strategy objects are built once per shard count; building them inside the
+# composite dominated generation time)
 def _filters(cls):
     small = st.integers(1, 5)
     common = [
@@ -1053,41 +1075,51 @@ def _filters(cls):
         ]
     else:
         common += [st.tuples(st.just("pid_eq"), st.integers(1, 4))]
-    return st.lists(st.one_of(*common), min_size=0, max_size=2).map(lambda fl: [[k, a] for k, a in fl])
+    one = st.one_of(*common)
+    return st.one_of(
+        st.just([]), st.just([]), st.lists(one, min_size=1, max_size=1), st.lists(one, min_size=1, max_size=1), st.lists(one, min_size=2, max_size=2)
+    ).map(lambda fl: [[k, a] for k, a in fl])
 
 
-@st.composite
-def _programs(draw):
-    n = draw(st.sampled_from([2, 2, 3, 3, 4]))
+_PMASK = st.integers(1, 15)
+_CMASK = st.integers(0, 31)
+_PROW = st.integers(0, 49)
+_CROW = st.integers(0, 39)
+_NSH = st.sampled_from([2, 2, 3, 3, 4])
+_EXMODE = st.sampled_from(["table", "table", "criteria"])
+_LAZYMODE = st.sampled_from(["owner", "owner", "table"])
+_CONSISTENT = st.sampled_from([True, True, False])
+_THIRD = st.integers(0, 2)
+_STRATS = {}
+
+
+def _strats(n):
+    if n in _STRATS:
+        return _STRATS[n]
     sh = st.integers(0, n - 1)
-    table = {k: draw(sh) for k in KEYS}
     subset = st.lists(sh, min_size=1, max_size=n, unique=True)
     wide = st.lists(sh, min_size=2, max_size=n, unique=True)
     full = st.just(list(range(n)))
-    id_sub = draw(st.one_of(full, subset, wide))
-    ex_sub = draw(st.one_of(full, subset, wide, wide))
-    seed = []
-    for _ in range(n):
-        parents = draw(st.lists(st.tuples(st.integers(1, 4), st.integers(0, 4), st.integers(0, 9)), min_size=1, max_size=3, unique_by=lambda t: t[0]))
-        children = draw(st.lists(st.tuples(st.integers(1, 5), st.integers(1, 4), st.integers(0, 9)), min_size=0, max_size=4, unique_by=lambda t: t[0]))
-        seed.append({"parents": [list(t) for t in parents], "children": [list(t) for t in children]})
     ref = st.integers(0, 23)
     cls_s = st.sampled_from(["P", "C"])
     route = st.one_of(
         st.none(),
         st.none(),
-        st.tuples(st.just("opt"), sh, st.sampled_from([True, True, False])).map(list),
+        st.none(),
+        st.tuples(st.just("opt"), sh, st.booleans()).map(list),
         st.tuples(st.just("bind"), sh).map(list),
         st.tuples(st.just("qshard"), sh).map(list),
     )
+    any_api = st.sampled_from(["select", "select", "query", "cols", "core"])
+    flt = {"P": _filters("P"), "C": _filters("C")}
 
-    def sel(cls):
+    def sel(cls, route=route, api=any_api):
         return st.fixed_dictionaries(
             {
                 "op": st.just("select"),
                 "cls": st.just(cls),
-                "api": st.sampled_from(["select", "select", "query", "cols", "core"]),
-                "filters": _filters(cls),
+                "api": api,
+                "filters": flt[cls],
                 "order": st.sampled_from([None, "id", "val", "val_desc"]),
                 "limit": st.sampled_from([None, None, 1, 2, 3]),
                 "route": route,
@@ -1100,7 +1132,7 @@ def _programs(draw):
                 {
                     "op": st.just("bulk_update"),
                     "cls": st.just(cls),
-                    "filters": _filters(cls),
+                    "filters": flt[cls],
                     "route": route,
                     "api": st.sampled_from(["stmt", "stmt", "query"]),
                     "mode": st.sampled_from(["add", "set"]),
@@ -1112,7 +1144,7 @@ def _programs(draw):
                 {
                     "op": st.just("bulk_delete"),
                     "cls": st.just(cls),
-                    "filters": _filters(cls),
+                    "filters": flt[cls],
                     "route": route,
                     "api": st.sampled_from(["stmt", "stmt", "query"]),
                 }
@@ -1121,32 +1153,101 @@ def _programs(draw):
 
     kid = st.tuples(st.integers(1, 5), st.integers(0, 9)).map(list)
     pref = st.sampled_from(["any", "sticky"])
+    lazy = st.one_of(
+        st.fixed_dictionaries({"op": st.just("lazy_children"), "o": ref, "pref": pref}),
+        st.fixed_dictionaries({"op": st.just("lazy_parent"), "o": ref, "pref": pref}),
+    )
+    add_parent = st.fixed_dictionaries(
+        {"op": st.just("add_parent"), "id": st.integers(1, 4), "rk": st.sampled_from(KEYS), "val": st.integers(0, 9), "kids": st.lists(kid, max_size=2)}
+    )
+    add_child = st.fixed_dictionaries({"op": st.just("add_child"), "p": ref, "id": st.integers(1, 5), "val": st.integers(0, 9)})
+    modify = st.fixed_dictionaries({"op": st.just("modify"), "cls": cls_s, "o": ref, "val": st.integers(0, 9)})
+    orm_delete = st.fixed_dictionaries({"op": st.just("orm_delete"), "o": ref})
+    get = st.fixed_dictionaries({"op": st.just("get"), "cls": cls_s, "id": st.integers(1, 5), "how": st.sampled_from(["plain", "plain", "token", "bind"]), "shard": sh})
+    write = st.one_of(add_parent, add_parent, add_child, modify, modify, orm_delete)
     op = st.one_of(
-        st.fixed_dictionaries({"op": st.just("add_parent"), "id": st.integers(1, 4), "rk": st.sampled_from(KEYS), "val": st.integers(0, 9), "kids": st.lists(kid, max_size=2)}),
-        st.fixed_dictionaries({"op": st.just("add_child"), "p": ref, "id": st.integers(1, 5), "val": st.integers(0, 9)}),
-        st.fixed_dictionaries({"op": st.just("modify"), "cls": cls_s, "o": ref, "val": st.integers(0, 9)}),
-        st.fixed_dictionaries({"op": st.just("orm_delete"), "o": ref}),
+        add_parent,
+        add_child,
+        modify,
+        orm_delete,
         st.just({"op": "commit"}),
-        st.fixed_dictionaries({"op": st.just("get"), "cls": cls_s, "id": st.integers(1, 5), "how": st.sampled_from(["plain", "plain", "token", "bind"]), "shard": sh}),
+        get,
+        get,
+        get,
         sel("P"),
         sel("C"),
         sel("P"),
-        st.fixed_dictionaries({"op": st.just("lazy_children"), "o": ref, "pref": pref}),
-        st.fixed_dictionaries({"op": st.just("lazy_parent"), "o": ref, "pref": pref}),
-        st.fixed_dictionaries({"op": st.just("lazy_children"), "o": ref, "pref": pref}),
+        lazy,
+        lazy,
         st.fixed_dictionaries({"op": st.sampled_from(["refresh", "expire_access"]), "cls": cls_s, "o": ref}),
         bulk("P"),
         bulk("C"),
     )
-    ops = draw(st.lists(op, min_size=3, max_size=12))
+    sticky_route = st.tuples(st.just("opt"), sh, st.just(True)).map(list)
+    sticky_api = st.sampled_from(["select", "query"])
+    d = {
+        "sh": sh,
+        "id_sub": st.one_of(full, subset, wide),
+        "ex_sub": st.one_of(full, full, subset, wide, wide),
+        "ref": ref,
+        "cls": cls_s,
+        "op": op,
+        "lazy": lazy,
+        "write": write,
+        "few3": st.lists(op, min_size=0, max_size=3),
+        "few4": st.lists(op, min_size=1, max_size=4),
+        "sel_unrouted": st.one_of(sel("P", route=st.none()), sel("C", route=st.none())),
+        "sel_sticky": {"P": sel("P", route=sticky_route, api=sticky_api), "C": sel("C", route=sticky_route, api=sticky_api)},
+    }
+    _STRATS[n] = d
+    return d
+
+
+@st.composite
+def _programs(draw):
+    n = draw(_NSH)
+    S = _strats(n)
+    table = {k: draw(S["sh"]) for k in KEYS}
+    id_sub = draw(S["id_sub"])
+    ex_sub = draw(S["ex_sub"])
+    seed = []
+    for _ in range(n):
+        # compact draws: bit masks of present PKs, one packed integer per row
+        pmask = draw(_PMASK)
+        cmask = draw(_CMASK)
+        parents = []
+        for pid in range(1, 5):
+            if pmask >> (pid - 1) & 1:
+                v = draw(_PROW)
+                parents.append([pid, v % 5, v // 5])
+        children = []
+        for cid in range(1, 6):
+            if cmask >> (cid - 1) & 1:
+                v = draw(_CROW)
+                children.append([cid, v % 4 + 1, v // 4])
+        seed.append({"parents": parents, "children": children})
+    # every program contains one un-routed (chooser-routed) select, one unit-of-work
+    # write and one lazy load; a third of them a set_shard_id(propagating) select followed by a lazy
+    # load from one of the objects it produced
+    ops = list(draw(S["few4"]))
+    ops.append(draw(S["sel_unrouted"]))
+    ops.append(draw(S["write"]))
+    ops.extend(draw(S["few3"]))
+    if draw(_THIRD) == 0:
+        cls = draw(S["cls"])
+        ops.append(draw(S["sel_sticky"][cls]))
+        ops.append({"op": "lazy_children" if cls == "P" else "lazy_parent", "o": draw(S["ref"]), "pref": "sticky"})
+    else:
+        ops.append(draw(S["lazy"]))
+    ops.extend(draw(S["few3"]))
     return {
         "n": n,
         "table": table,
         "id_sub": id_sub,
         "ex_sub": ex_sub,
-        "ex_mode": draw(st.sampled_from(["table", "table", "criteria"])),
-        "lazy_mode": draw(st.sampled_from(["owner", "owner", "table"])),
-        "consistent": draw(st.sampled_from([True, True, False])),
+        "ex_mode": draw(_EXMODE),
+        "lazy_mode": draw(_LAZYMODE),
+        "consistent": draw(_CONSISTENT),
         "eoc": draw(st.booleans()),
         "seed": seed,
         "ops": ops,
@@ -1154,4 +1255,4 @@ def _programs(draw):
 
 
 def subs(tier):
-    return [Generated("program", check_program, strategy=_programs(), quick=800, thorough=60000)]
+    return [Generated("program", check_program, strategy=_programs(), quick=1600, thorough=60000, budget_s_quick=30.0)]
